@@ -20,7 +20,7 @@ PROP = Prop(
          "transactional bit on the wrong kind of producer), InitProducerID (first, repeated, KIP-360 with id+epoch), AddPartitionsToTxn (also without data), EndTxn commit/abort "
          "(also stale, repeated), DeleteRecords (in range, -1, out of range), sleeps that let transactions time out, Fetch (both isolation levels, offsets in/out of range and inside "
          "batches, MaxBytes / PartitionMaxBytes from 1 byte up, sessionless / new session / incremental with moved offsets, added and forgotten partitions, wrong epochs and ids, session kill; MinBytes > 0 with MaxWait: fetches that wait at the log end until the deadline or until a transaction timing out meanwhile puts enough marker / released bytes on a watched partition); "
-         "after every request ListOffsets of every partition (log start, LSO, HWM). Scripted openings: interleaved aborted transactions then small-MaxBytes read_committed reads; "
+         "after every request ListOffsets of every partition (log start, LSO, HWM). Scripted openings: interleaved aborted transactions then small-MaxBytes read_committed reads; in a quarter of the histories nested / overlapping transactions of two or three producers on one partition (outer starts first and ends last, every combination of commit/abort, a second inner transaction) followed by read_committed fetches of one batch (MaxBytes or PartitionMaxBytes 1) and of two or three batches from every offset of the log; "
          "a session over all partitions before any data. non-trivial = an operation executed while some partition's log is non-empty. distinct = distinct op lines.",
     trusted_base=["hand-written Lean model of kfake's partition log, coordinator and fetch sessions (Model.C32), tied by differential runs over raw protocol histories: every response field and the bounds after every step",
                   "Spec.C32 ledger (built from the implementation's own answers) and the transcription of Kafka's consumer-side aborted-transaction rule",
